@@ -246,7 +246,7 @@ func TestVF_C17(t *testing.T) {
 	}
 	// one relay in the path; what the relay's own connector towards the server returns varies
 	for _, dir := range []string{"up", "down"} {
-		for _, rc := range []string{"ok", "nil", "dead", "banner", "silent"} {
+		for _, rc := range []string{"ok", "nil", "dead", "banner", "silent", "late-ok"} {
 			for rep := 0; rep < vfPick(2, 8); rep++ {
 				dir, rc, rep := dir, rc, rep
 				cases = append(cases, vfCase{ID: fmt.Sprintf("%srelay-%s-%s-%d", ytag, dir, rc, rep), Run: func(c *vfCtx) {
@@ -319,6 +319,11 @@ func vfTunnelCase(c *vfCtx, dir string, plan vfTunnelPlan) {
 		}
 		s.relayTunnelHook = func(port int, dial func() net.Conn) net.Conn {
 			switch plan.Relay {
+			case "late-ok":
+				// the relay's connector reaches the genuine server, but only after 3 s: the client (whose ACT is held
+				// back for 4 s, as if the user were still choosing) has long decided to go on in-band
+				time.Sleep(3 * time.Second)
+				return dial()
 			case "nil":
 				return nil
 			case "dead":
@@ -333,6 +338,14 @@ func vfTunnelCase(c *vfCtx, dir string, plan vfTunnelPlan) {
 				return conn
 			}
 		}
+	}
+	if plan.Relay == "late-ok" {
+		var once sync.Once
+		s.cliW().SetGate(func(ev vfGateEvent) {
+			if ev.Before && ev.Type == "ACT" {
+				once.Do(func() { time.Sleep(4 * time.Second) })
+			}
+		})
 	}
 	var mu sync.Mutex
 	var probes []*vfProbeConn
